@@ -10,7 +10,7 @@ From Coq Require Import NArith List.
 From BU Require Import Base.Exn Base.Bytes Gen.Consts Gen.Bech32Consts
   Model.Base58 Model.Bech32Bits Model.Bech32Str Model.Bech32 Model.Wif.
 From BU Require Lemmas.Base58 Lemmas.ConstsOk Lemmas.Bech32Bits Lemmas.Bech32Str Lemmas.Bech32Code
-  Lemmas.Bech32 Lemmas.Wif Lemmas.Bech32Detect Lemmas.Bech32CertB32 Lemmas.Bech32Cert Lemmas.Bech32CertCash
+  Lemmas.Bech32 Lemmas.Wif Lemmas.Bech32Detect Lemmas.Bech32CertB32 Lemmas.Bech32CertX Lemmas.Bech32Cert Lemmas.Bech32CertCash
   Lemmas.Bech32CashDetect.
 Import ListNotations.
 Open Scope N_scope.
@@ -227,7 +227,8 @@ Print Assumptions cashaddr_checksum_unique.
    The proofs rest on a distance certificate evaluated by the kernel (vm) on the generator words regenerated
    from the PolyMod bodies: Lemmas/Bech32CertB32.v (window 89) and Lemmas/Bech32CertCash.v (window 160). *)
 Notation hamming := Lemmas.Bech32Detect.hamming.
-Notation data_corrupted := Lemmas.Bech32Cert.data_corrupted.
+Notation data_corrupted := Lemmas.Bech32Cert.data_corrupted.        (* 1..4 characters *)
+Notation data_corrupted_n := Lemmas.Bech32Cert.data_corrupted_n.    (* 1..k characters *)
 Notation b32_window := Lemmas.Bech32CertB32.b32_window.       (* 89 *)
 Notation cash_window := Lemmas.Bech32CertCash.cash_window.    (* 160 *)
 
@@ -285,6 +286,21 @@ Theorem segwit_detects_4_partial : forall hrp s1 s2 v1 p1 n, segwit_decode hrp s
   (exists v2 p2, segwit_decode hrp s2 = Ok (v2, p2) /\ (v1 =? 0) <> (v2 =? 0)).
 Proof. exact Lemmas.Bech32Cert.segwit_detects_4_err. Qed.
 Print Assumptions segwit_detects_4_partial.
+
+(* and up to THREE substitutions are always detected, also across the two constants: a second certificate
+   (Lemmas/Bech32CertX.v) shows that within 72 symbols no pattern of 1..3 symbols has the syndrome
+   (Bech32 constant) xor (Bech32m constant) *)
+Theorem segwit_detects_3 : forall hrp s1 s2 v1 p1 n, segwit_decode hrp s1 = Ok (v1, p1) ->
+  data_corrupted_n 3 segwit_sep n s1 s2 ->
+  exists e, segwit_decode hrp s2 = Err e /\ (e = ValueError \/ e = LibError Bech32ChecksumError).
+Proof. exact Lemmas.Bech32Cert.segwit_detects_3_err. Qed.
+Print Assumptions segwit_detects_3.
+
+Example segwit_detects_3_example : exists p1 s2 n,
+  segwit_decode [98; 99] Lemmas.Bech32Cert.cross_s1 = Ok (0, p1) /\
+  data_corrupted_n 3 segwit_sep n Lemmas.Bech32Cert.cross_s1 s2.
+Proof. exact Lemmas.Bech32Cert.segwit_detects_example. Qed.
+Print Assumptions segwit_detects_3_example.
 
 (* CashAddr: data parts of at most 160 characters *)
 Theorem cashaddr_checksum_detects_4 : forall hrp d1 d2, length d1 = length d2 -> (length d1 <= cash_window)%nat ->
